@@ -430,7 +430,37 @@ func nmRandString(r *Rng, mode, maxLen int) string {
 			rr[i] = nmRandRune(r, r.Intn(5))
 		}
 	}
+	// guaranteed frequency (1 in 4) of a special code point at the first, middle or last position
+	if r.Chance(1, 4) {
+		sp := nmSpecials
+		if mode == 0 {
+			sp = nmMacSpecials
+		}
+		pos := []int{0, n / 2, n - 1}[r.Intn(3)]
+		rr[pos] = Pick(r, sp)
+	}
 	return string(rr)
+}
+
+// code points at which codecs special-case or break: BOM and its mirror, NUL, the ends of the BMP,
+// the neighbours of the surrogate block, the ends of the supplementary planes
+var nmSpecials = []rune{0xFEFF, 0xFFFE, 0x0000, 0xFFFF, 0xD7FF, 0xE000, 0x10000, 0x10FFFF}
+
+// the same idea inside the Mac Roman repertoire: NUL, DEL, '?', first/last high byte, NBSP, the apple
+var nmMacSpecials = []rune{0x0000, 0x007F, '?', 0x00C4, 0x02C7, 0x00A0, 0xF8FF, 0x20AC}
+
+// nmBoundaryStrings: every special alone, and at the first, middle and last position of a short text
+func nmBoundaryStrings(sp []rune, filler []rune) []string {
+	var out []string
+	for _, x := range sp {
+		out = append(out, string([]rune{x}))
+		out = append(out, string(append([]rune{x}, filler...)))
+		mid := append(append(append([]rune(nil), filler[:len(filler)/2]...), x), filler[len(filler)/2:]...)
+		out = append(out, string(mid))
+		out = append(out, string(append(append([]rune(nil), filler...), x)))
+		out = append(out, string([]rune{x, x}))
+	}
+	return out
 }
 
 func nmStdNames() []string {
@@ -734,6 +764,16 @@ func nmNameTable(c *Ctx) {
 		nmNameCase(c, []nmEntry{{3, ms[uint16(l)], 4, "Full " + string(nmRandRune(r, 2)) + string(nmRandRune(r, 3))}}, 1, "each-windows-language")
 	}
 	nmNameCase(c, nil, 1, "empty")
+	// boundary strings in records (every run): each special code point alone / first / middle / last,
+	// on both platforms, also shared between records
+	for i, s := range nmBoundaryStrings(nmSpecials, []rune("Ab\u00e9\u4e2d")) {
+		es := []nmEntry{{3, "en-US", 1 + i%5, s}, {3, "de-DE", 300, s + "x"}, {3, "en-US", 26, "x" + s}}
+		nmNameCase(c, es, []int{1, 1, 10}[i%3], "boundary-windows")
+	}
+	for i, s := range nmBoundaryStrings(nmMacSpecials, []rune("Ab\u00e9\u2260")) {
+		es := []nmEntry{{1, "en", 1 + i%5, s}, {1, "fr", 2, "x" + s}, {3, "en-US", 1, s}}
+		nmNameCase(c, es, 1, "boundary-mac")
+	}
 	var macTags, winTags []string
 	for _, l := range nmSortedLangs(apple) {
 		macTags = append(macTags, apple[uint16(l)])
@@ -850,7 +890,31 @@ func nmCodecs(c *Ctx) {
 		c.Case(Verdict, "names.macenc", "r="+nmRunes(s), true)
 		c.Stat("macenc", []string{"repertoire", "with-unrepresentable"}[mode])
 	}
-	// UTF-16
+	// UTF-16: boundary strings first (every run): each special code point alone and at the first,
+	// middle and last position
+	for _, s := range nmBoundaryStrings(nmSpecials, []rune("Ab\u00e9\u4e2d")) {
+		out := c.Case(Verdict, "names.u16enc", "r="+nmRunes(s), true)
+		c.Case(Verdict, "names.u16dec", "b="+out, true)
+		c.Stat("u16enc_units", "boundary")
+		c.Stat("u16dec", "boundary-encoder-output")
+	}
+	// raw code-unit strings beginning with FE FF / FF FE and other special units
+	for _, first := range []int{0xFEFF, 0xFFFE, 0x0000, 0xFFFF, 0xD7FF, 0xE000, 0xD800, 0xDC00} {
+		for _, tail := range [][]int{{}, {0x41}, {0x41, 0x42}, {first}, {0xD800, 0xDC00}, {0xDBFF, 0xDFFF, first}} {
+			var b []byte
+			for _, u := range append([]int{first}, tail...) {
+				b = append(b, byte(u>>8), byte(u))
+			}
+			c.Case(Verdict, "names.u16dec", "b="+hx(b), true)
+			c.Case(Verdict, "names.u16dec", "b="+hx(append(b, 0xFE)), true) // odd trailing byte
+			c.Stat("u16dec", "boundary-raw-units")
+		}
+	}
+	for _, s := range nmBoundaryStrings(nmMacSpecials, []rune("Ab\u00e9\u2260")) {
+		out := c.Case(Verdict, "names.macenc", "r="+nmRunes(s), true)
+		c.Case(Verdict, "names.macdec", "b="+out, true)
+		c.Stat("macenc", "boundary")
+	}
 	for i := 0; i < n; i++ {
 		ml := 30
 		if i%50 == 49 {
